@@ -31,7 +31,8 @@ DEFAULT = {"http": 80, "https": 443, "ws": 80, "wss": 443, "ftp": 21}
 SCHEMES = ["http", "https", "x", ""]
 USERS = [None, "u", "a%40b", "J%F6rg%C3"]   # last: escapes that are not valid UTF-8 (kept verbatim)
 PASSWORDS = [None, "", "p%3Aq%FF"]
-HOSTS = [("h.com", "h.com"), ("xn--9ca.com", "xn--9ca.com"), ("1.2.3.4", "1.2.3.4"), ("[::1]", "::1"), ("[fe80::1%eth0]", "fe80::1%eth0")]
+HOSTS = [("h.com", "h.com"), ("xn--9ca.com", "xn--9ca.com"), ("1.2.3.4", "1.2.3.4"), ("[::1]", "::1"), ("[fe80::1%eth0]", "fe80::1%eth0"),
+         ("v1.x", "v1.x")]    # a reg-name that looks like an IPvFuture literal (no brackets: it is not one)
 PORTS = [None, 0, "default", 81]
 PATHS = ["", "/", "/p", "/a/b/", "/d/e.txt", "/x.tar.%67z"]
 QUERIES = ["", "q=1"]
@@ -198,6 +199,14 @@ def case_mod(acc, base, ci, lazy=False):
             continue
         if got != want:
             probs.append("%s %r, expected %r" % (f, got, want))
+    # the stored authority is the re-composition of the (expected) parts: IP literals in brackets (a host with ':'), nothing else
+    if not probs and o["host"] is not None:
+        h = o["host"]
+        want_auth = ("[%s]" % h if ":" in h else h) + ("" if o["port"] is None else ":%d" % o["port"])
+        if o["user"] is not None or o["password"] is not None:
+            want_auth = (o["user"] or "") + ("" if o["password"] is None else ":" + o["password"]) + "@" + want_auth
+        if o["authority"] != want_auth and not (o["host"] == "" and not o["authority"]):
+            probs.append("raw_authority %r, its parts re-compose to %r" % (o["authority"], want_auth))
     if probs:
         acc.viol("mod", (base, ci, lazy), observed={"call": name, "result": s, "components": o}, expected={k: exp[k] for k in FIELDS if exp[k] != "QUERY"},
                  msg="%sURL(%r).%s -> %r: %s" % ("cache-free twin of " if lazy else "", base, name, s, "; ".join(probs)))
